@@ -30,7 +30,7 @@ PROPERTIES["C19"] = {
                     "Map[string,int] instantiation; callbacks range over threshold/affine/key-equality families with symbolic parameters"],
     "runs": [Run("orderedmap", ["./internal/orderedmap"],
                  {"internal/orderedmap/zz_verif_c19.go": "harness/orderedmap/zz_verif_c19.go"},
-                 ["VerifC19Step", "VerifC19History"], "internal/orderedmap", panics="violation")],
+                 ["VerifC19Step", "VerifC19History", "VerifC19JSONHistory", "VerifC19JSONDocs"], "internal/orderedmap", panics="violation")],
 }
 
 
@@ -45,7 +45,8 @@ def _h(*pairs):
 COMPILER_HARNESS = _h(("internal/ast/compiler/zz_verif_c05.go", "harness/compiler/zz_verif_c05.go"),
                       ("internal/ast/compiler/zz_verif_c07.go", "harness/compiler/zz_verif_c07.go"),
                       ("internal/ast/compiler/zz_verif_c15.go", "harness/compiler/zz_verif_c15.go"),
-                      ("internal/ast/compiler/zz_verif_c05_seq.go", "harness/compiler/zz_verif_c05_seq.go"))
+                      ("internal/ast/compiler/zz_verif_c05_seq.go", "harness/compiler/zz_verif_c05_seq.go"),
+                      ("internal/ast/compiler/zz_verif_c03.go", "harness/compiler/zz_verif_c03.go"))
 
 PROPERTIES["C05"] = {
     "level_text": "Bounded symbolic execution + SMT of the real passes (via compiler.Passes.Process, i.e. after the deep copy, as users run them) on "
@@ -158,7 +159,7 @@ PROPERTIES["C04"] = {
                  ["VerifC07UserPasses", "VerifC05Rename", "VerifC05Prefix", "VerifC05Duplicate", "VerifC05Unspec", "VerifC05ReplaceReference", "VerifC05AllowedObjects"],
                  "internal/ast/compiler", needs_leaf=True, panics="violation", judge="panic", quick_entries=["VerifC07UserPasses", "VerifC05AllowedObjects", "VerifC05Duplicate"]),
              Run("orderedmap", ["./internal/orderedmap"], {"internal/orderedmap/zz_verif_c19.go": "harness/orderedmap/zz_verif_c19.go"},
-                 ["VerifC19Step", "VerifC19History"], "internal/orderedmap", panics="violation", judge="panic"),
+                 ["VerifC19Step", "VerifC19History", "VerifC19JSONHistory", "VerifC19JSONDocs"], "internal/orderedmap", panics="violation", judge="panic"),
              Run("jsonschema_jenny", ["./internal/jennies/jsonschema"], _h(("internal/jennies/jsonschema/zz_verif_c12.go", "harness/jjsonschema/zz_verif_c12.go")),
                  ["VerifC12GenerateSchema"], "internal/jennies/jsonschema", test_pkg_name="jsonschema", needs_leaf=True, panics="violation", judge="panic"),
              Run("hast", ["./internal/zzverif/hast"], HAST_HARNESS, ["VerifC16FromAST"], "internal/zzverif/hast", test_pkg_name="hast", panics="violation", judge="panic"),
@@ -199,6 +200,7 @@ VENEERS_HARNESS = _h(("internal/zzverif/hveneers/zz_verif_c17.go", "harness/hven
                      ("internal/zzverif/hveneers/zz_verif_c17_more.go", "harness/hveneers/zz_verif_c17_more.go"),
                      ("internal/zzverif/hveneers/zz_verif_c09_nilchecks.go", "harness/hveneers/zz_verif_c09_nilchecks.go"),
                      ("internal/zzverif/hveneers/zz_verif_c14.go", "harness/hveneers/zz_verif_c14.go"),
+                     ("internal/zzverif/hveneers/zz_verif_c14_more.go", "harness/hveneers/zz_verif_c14_more.go"),
                      ("internal/zzverif/hveneers/zz_verif_c17_seq.go", "harness/hveneers/zz_verif_c17_seq.go"))
 
 PROPERTIES["C17"] = {
@@ -463,7 +465,7 @@ PROPERTIES["C14"] = {
     "level_note": "In part (IR level): `the text returned by the generated converter is a valid Go expression that rebuilds v` is template-rendered text judged by the Go compiler and is outside "
                   "the claim. Bounds as C17 (Foo with 2 fields over 7 kinds).",
     "bounds": {"builders": "as C17", "rules before conversion": "none or one of 6 option rules applied to every option"},
-    "runs": [Run("veneers", ["./internal/zzverif/hveneers"], VENEERS_HARNESS, ["VerifC14ConverterMapping"], "internal/zzverif/hveneers", test_pkg_name="hveneers", needs_leaf=True)],
+    "runs": [Run("veneers", ["./internal/zzverif/hveneers"], VENEERS_HARNESS, ["VerifC14ConverterMapping", "VerifC14UnionLists", "VerifC14BuilderChoice"], "internal/zzverif/hveneers", test_pkg_name="hveneers", needs_leaf=True, repeat=200, judge="prefix:C14")],
 }
 
 
@@ -478,6 +480,10 @@ def _add_run(pid, run):
     else:
         PROPERTIES[pid]["runs"] = list(old) + [run]
 
+_add_run("C08", Run("openapi_constraints", ["./internal/openapi"], OPENAPI_HARNESS, ["VerifC08OpenAPIConstraints"], "internal/openapi", needs_leaf=True, judge="prefix:C08"))
+_add_run("C03", Run("user_passes", ["./internal/ast/compiler"], COMPILER_HARNESS, ["VerifC03UserPasses"], "internal/ast/compiler", needs_leaf=True, repeat=400, judge="prefix:C03"))
+_add_run("C03", Run("converter", ["./internal/zzverif/hveneers"], VENEERS_HARNESS, ["VerifC14UnionLists"], "internal/zzverif/hveneers", test_pkg_name="hveneers",
+                    needs_leaf=True, repeat=400, judge="prefix:C03"))
 _add_run("C03", Run("openapi_parser", ["./internal/openapi"], OPENAPI_HARNESS, ["VerifParserOpenAPI"], "internal/openapi", needs_leaf=True, repeat=400,
                     allow_unreached=["C05: a reference of the IR parsed from an OpenAPI document does not resolve", "C05: the parser lost or invented a definition"]))
 
